@@ -840,6 +840,7 @@ def _generic_source_ty(ty):
 def r05_8(ctx):
     lib = ctx.lib
     n_ad = 0
+    n_it = 0
     seen_reads = 0
     for b in lib.bodies:
         is_read_impl = b.id.startswith("<") and b.id.endswith(" as std::io::Read>::read")
@@ -855,6 +856,33 @@ def r05_8(ctx):
                 pulls.append((nn, f["name"]))
             elif f.get("def") == "std::io::copy" and _generic_source_ty((f.get("args") or [""])[0]):
                 pulls.append((nn, "read_to_end"))
+        # a generic iterator of io::Result items is a byte source in disguise (the UTF-16/32 decoders behind the
+        # re-encoder): each `next` may block on the underlying reader.  Inside an adapter's `read` such a pull must not
+        # sit on a cycle that is still reachable after it has yielded an item: "keep decoding until the caller's
+        # buffer is full" makes the consumer wait for a whole buffer of a stream that trickles in.
+        ipulls = []
+        isome = {}
+        if is_read_impl:
+            for nn, bx, t in sup.calls():
+                f = fn_of(t) or {}
+                if any(str(cs[2]).endswith(" as std::io::Read>::read") for cs in nn[0]):
+                    # inside another adapter's `read` inlined here: judged at that adapter
+                    continue
+                dty = ((t.get("dest") or {}).get("ty") or "")
+                if (f.get("def") == "std::iter::Iterator::next" or (f.get("trait") and not str(f.get("trait")).startswith("std::"))) and _generic_source_ty(f.get("self_ty")) and "std::io::Error" in dty:
+                    # `Iterator::next` or the method of a crate-local "character source" trait on a type parameter
+                    ipulls.append(nn)
+                    isome[nn] = 1 if dty.startswith("std::option::Option<") else 0
+        if ipulls:
+            n_it += 1
+            ps_i = PathSens(sup)
+            for nn in ipulls:
+                ps_i.assume[nn] = (("var", isome[nn]), None)
+            loops = [nn for nn in ipulls if nn in ps_i.reach_from_node(nn)]
+            nm_i = b.id.split(' as ')[0].lstrip('<').split('<')[0].rsplit('::', 1)[-1]
+            ctx.ob(f"one-pull-per-call:{nm_i}", not loops, sup.site(loops[0]) if loops else site(b),
+                   f"{len(ipulls)} pull(s) of a fallible iterator over the source; none is repeated within one `read` call once it has yielded an item" if not loops else
+                   f"`{b.id}` pulls the next item of a generic iterator of io::Result items (a decoder over the blocking source) in a loop that goes on after an item has been yielded, until the caller's buffer is full: one `read` of the adapter waits for a whole buffer of the stream, so documents that have already arrived stay unwritten while a slow stream trickles in")
         if not pulls:
             continue
         n_ad += 1
@@ -880,6 +908,7 @@ def r05_8(ctx):
         else:
             ctx.ob(f"one-pull-per-call:{b.name if not is_read_impl else b.id.split(' as ')[0].lstrip('<').split('<')[0].rsplit('::', 1)[-1]}", False, sup.site(again[0][0]),
                    f"after this source read has succeeded another source read (at {sup.site(again[0][1])}) is reachable within the same `read` call: the adapter fills the caller's buffer over several reads, so the consumer waits for more of the stream than one read delivers")
+    ctx.ob("iterator-fed-adapters", n_it >= 1, "lib", f"{n_it} io::Read impl(s) fed by a generic fallible iterator / character source examined (the UTF-8 re-encoder)")
     ctx.ob("read-adapters", n_ad >= 4, "lib", f"{n_ad} adapter body(ies) with a read of a generic source examined ({seen_reads} io::Read impls in the crate)")
 
 
